@@ -83,3 +83,15 @@ LEVEL_TEXT["C05"] = ("Seeded exploration of write histories on RAM and disk stor
 for _k in list(NOT_APPLICABLE):
     if _k in META:
         del NOT_APPLICABLE[_k]
+
+for _id, _extra, _lt in [
+    ("C01", "C01 profile: 50-400 writes; every listed segment/part decoded once and matched unit by unit (bytes, order, start, end, timestamps, base times) against the write script.",
+     "Seeded exploration of configurations and write scripts; every decoded sample is attributed to exactly one written unit and compared with the harness's own record. Sampling of inputs."),
+    ("C02", "C02 profile: key-frame spacing biased to sit on/around SegmentMinDuration, parameter changes on and off key frames; cut positions recomputed relationally from the write script.",
+     "Seeded exploration; the cut rule is re-derived from the statement over the written units and compared with the observed segment boundaries of every stream; init segments are decoded at every change. Sampling."),
+    ("C03", "C03 profile: arbitrary frame durations and NTP values incl. jitter, jumps and drift; every playlist of the history checked against unit spans and decoded fragments.",
+     "Seeded exploration; every EXTINF, part DURATION, PROGRAM-DATE-TIME and target value of every playlist in the history is compared with the written timestamps. Sampling."),
+]:
+    META[_id] = {"level": "exploration", "rule": MUX_RULE + _extra, "real": MUX_REAL, "stub": MUX_STUB, "assumptions": MUX_ASSUME}
+    LEVEL_TEXT[_id] = _lt
+    NOT_APPLICABLE.pop(_id, None)
